@@ -91,13 +91,16 @@ func init() {
 		Controls: []Control{
 			{Name: "precedence-shifted", File: "token/token.go", Old: "\tcase ADD, SUB, OR, XOR:\n\t\treturn 4\n\tcase MUL, QUO, REM, SHL, SHR, AND, AND_NOT:\n\t\treturn 5", New: "\tcase ADD, SUB, OR:\n\t\treturn 4\n\tcase MUL, QUO, REM, SHL, SHR, AND, AND_NOT, XOR:\n\t\treturn 5", Expect: "precedence/XOR"},
 			{Name: "unary-drops-arrow", File: pp, Old: "\tcase token.ARROW:\n\t\t// channel type or receive expression\n\t\tarrow := p.pos", New: "\tcase token.ILLEGAL:\n\t\t// channel type or receive expression\n\t\tarrow := p.pos", Expect: "dispatch/parseUnaryExpr ARROW"},
+			{Name: "call-args-at-outer-level", File: pp, Old: "func (p *parser) parseCallOrConversion(fun ast.Expr, isCmd bool) *ast.CallExpr {", New: "func (p *parser) parseCallOrConversion(fun ast.Expr, isCmd bool) *ast.CallExpr {\n\tp.exprLev--\n\tdefer func() { p.exprLev++ }()", Expect: "expr-level/parseCallOrConversion parserhs"},
+			{Name: "if-header-level-kept", File: pp, Old: "\touter := p.exprLev\n\tp.exprLev = -1\n", New: "\touter := p.exprLev\n", Expect: "expr-level/parseIfHeader parsesimplestmt"},
+			{Name: "scanner-number-edit", File: "scanner/scanner.go", Old: "\tif e := lower(s.ch); e == 'e' || e == 'p' {", New: "\tif e := lower(s.ch); e == 'e' || e == 'p' || e == 'd' {", Expect: "deviation/Scanner.scanNumber"},
 			{Name: "stmt-drops-select", File: pp, Old: "\tcase token.SELECT:\n\t\ts = p.parseSelectStmt()", New: "\tcase token.ILLEGAL:\n\t\ts = p.parseSelectStmt()", Expect: "dispatch/parseStmt SELECT"},
 		},
 	})
 }
 
 func runC14(c *core.Check) {
-	prog := c.Load("./parser", "go/parser", "./token", "go/token")
+	prog := c.Load("./parser", "go/parser", "./token", "go/token", "./scanner", "go/scanner")
 	x, g := prog.Pkg("./parser"), prog.Pkg("go/parser")
 	xt, gt := prog.Pkg("./token"), prog.Pkg("go/token")
 	if x == nil || g == nil || xt == nil || gt == nil {
@@ -176,7 +179,88 @@ func runC14(c *core.Check) {
 		}
 	}
 	c.Floor("dispatch", 120)
+
+	// ---------- (4) expression-level context: composite literals are recognised only at exprLev >= 0, so the level at
+	// which each sub-parser runs decides how `T{` is parsed in if/for/switch headers and inside ( ) [ ] and calls
+	var lnames []string
+	for k := range c14LevGroups {
+		lnames = append(lnames, k)
+	}
+	sort.Strings(lnames)
+	for _, gname := range lnames {
+		gf := core.FindFuncDecl(g, "parser."+gname)
+		if gf == nil {
+			c.Bad("anchor", "go/parser."+gname, 0, "reference function not found")
+			continue
+		}
+		gsum := levSets(exprLevCalls(gf))
+		xsum := map[string]map[string]bool{}
+		var xpos = gf.Pos()
+		for _, xn := range c14LevGroups[gname] {
+			xf := core.FindFuncDecl(x, "parser."+xn)
+			if xf == nil {
+				c.Bad("anchor", "parser."+xn, 0, "the XGo counterpart of go/parser."+gname+" was not found")
+				continue
+			}
+			xpos = xf.Pos()
+			calls := exprLevCalls(xf)
+			// inline the helpers that continue the production
+			for _, cl := range append([]levCall{}, calls...) {
+				if c14LevInline[gname+":"+cl.name] {
+					if hf := core.FindFuncDecl(x, "parser."+cl.name); hf != nil {
+						for _, hc := range exprLevCalls(hf) {
+							calls = append(calls, levCall{hc.name, hc.at.shift(cl.at)})
+						}
+					}
+				}
+			}
+			for k, v := range levSets(calls) {
+				if xsum[k] == nil {
+					xsum[k] = map[string]bool{}
+				}
+				for l := range v {
+					xsum[k][l] = true
+				}
+			}
+		}
+		var callees []string
+		for k := range gsum {
+			callees = append(callees, k)
+		}
+		sort.Strings(callees)
+		for _, k := range callees {
+			xv, ok := xsum[k]
+			if !ok {
+				continue // the XGo function does not call this sub-parser (restructured or not supported: see the dispatch rule)
+			}
+			key := gname + " " + k
+			c.Decide(setStr(xv) == setStr(gsum[k]), "expr-level", key, xpos, "level "+setStr(xv),
+				core.Sprintf("go/parser.%s runs %s at expression level {%s} (relative to its entry; =-1 is the control-clause level); the XGo counterpart %v runs it at {%s}: whether `T{` starts a composite literal or a block there now differs from go/parser", gname, k, setStr(gsum[k]), c14LevGroups[gname], setStr(xv)))
+		}
+	}
+	c.Floor("expr-level", 18)
+
+	// ---------- (5) the token stream: the scanner agrees with go/scanner on Go lexemes (rules shared with C16)
+	scannerAgreement(c, prog, false)
 }
+
+// c14LevGroups: go/parser functions that change p.exprLev and the XGo functions playing their role.
+var c14LevGroups = map[string][]string{
+	"parseArrayType":                {"parseArrayTypeOrSliceLit"},
+	"parseArrayFieldOrTypeInstance": {"parseArrayFieldOrTypeInstance"},
+	"parseTypeInstance":             {"parseTypeInstance"},
+	"parseFuncTypeOrLit":            {"parseFuncTypeOrLit"},
+	"parseOperand":                  {"parseOperand"},
+	"parseIndexOrSliceOrInstance":   {"parseIndexOrSlice"},
+	"parseCallOrConversion":         {"parseCallOrConversion"},
+	"parseLiteralValue":             {"parseLiteralValue", "parseLiteralValueOrMapComprehension"},
+	"parseIfHeader":                 {"parseIfHeader"},
+	"parseSwitchStmt":               {"parseSwitchStmt"},
+	"parseForStmt":                  {"parseForStmt"},
+}
+
+// helpers that continue a production of their caller (their calls count at the caller's level)
+var c14LevInline = map[string]bool{"parseIndexOrSliceOrInstance:parseIndexOrSliceContinue": true}
 
 // precTable reads `func (op Token) Precedence() int { switch op { case A, B: return n … } }`.
 func precTable(pk *packages.Package) map[string]int {
